@@ -350,6 +350,19 @@ func genAV1Rt(x *Ctx) {
 			})
 		}
 	}
+	// many tiny OBUs in one W = 0 packet (the deprecated parser compares its element counter as a byte)
+	for _, k := range []int{200, 254, 255, 256, 257, 300, 520} {
+		for _, mtu := range []int{1200, 65535} {
+			x.Case(func(c *Case) {
+				os := make([]av1Obu, k)
+				for i := range os {
+					os[i] = av1Obu{typ: 6, hasSize: true, payload: c.R.Bytes(c.R.Intn(2))}
+				}
+				c.Tag("grid-many-tiny")
+				av1RtCase(c, mtu, os)
+			})
+		}
+	}
 	// random sequences
 	for i, n := 0, x.N(14000, 600000); i < n; i++ {
 		x.Case(func(c *Case) {
